@@ -2,6 +2,7 @@ import FtdcVerif.Lemmas.Codec
 import FtdcVerif.Lemmas.Reader
 import FtdcVerif.Model.Collector
 import FtdcVerif.Lemmas.FileE2E
+import FtdcVerif.Lemmas.PayloadTie
 /-!
 # C03 — wire-format conformance both ways
 
@@ -251,5 +252,55 @@ example : ∀ o ∈ [OutDoc.metaDoc .none .nil, .chunk (.at 5#64) (.cons [97] (.
         by simp [extractDoc, extractVal]⟩, by simp [vals, extractDoc, extractVal], by simp, by simp⟩, ?_, trivial⟩
     simp [FileE2E.wireDoc, FileE2E.idMs, FileE2E.binaryRaw, serDoc_length, serElems, serVal, le64, le32, leN, BVal.tag, keyId, keyType,
       keyData, payloadOf, rleEnc, rleEncAux, column, deltas]
+
+/-! ### the encoder loop as regenerated from the Go text
+
+`Gen.Better.getPayload_region` is the translation (harness/cmd/extract/translate.go, rewritten on every run) of the
+statements of `betterCollector.getPayload` between the two count words and the compression: the two nested loops over
+metrics and samples with their pending-zero counter, and the final flush.  Its `payload` is the list of values the loop
+hands to `encodeValue`; `emitBytes` is their varint encoding. -/
+
+/-- **the Go encoder loop emits the model's zero-run stream** of the metric-major cells of the delta table, for every
+table, every size -/
+theorem go_encoder_loop_is_model (ds : List Int) (md : Int) (ns nm : Nat)
+    (hr : ∀ x ∈ ds, -2 ^ 63 ≤ x ∧ x < 2 ^ 63) (hsz : nm * ns < 2 ^ 63) :
+    PayloadTie.emitBytes (Gen.Better.getPayload_region ds md (ns : Int) (nm : Int) [])
+      = rleEnc ((PayloadTie.rows ds md ns 0 nm).map (BitVec.ofInt 64)) :=
+  PayloadTie.getPayload_region_is_rleEnc ds md ns nm hr hsz
+
+/-- hence the stream the Go loop writes is a spec-conformant token stream, in canonical form, that expands to the cells -/
+theorem go_encoder_loop_conformant (ds : List Int) (md : Int) (ns nm : Nat)
+    (hr : ∀ x ∈ ds, -2 ^ 63 ≤ x ∧ x < 2 ^ 63) (hsz : nm * ns < 2 ^ 63) :
+    PayloadTie.emitBytes (Gen.Better.getPayload_region ds md (ns : Int) (nm : Int) [])
+        = encToks (canonAux 0 ((PayloadTie.rows ds md ns 0 nm).map (BitVec.ofInt 64))) ∧
+      Canonical (canonAux 0 ((PayloadTie.rows ds md ns 0 nm).map (BitVec.ofInt 64))) ∧
+      expand (canonAux 0 ((PayloadTie.rows ds md ns 0 nm).map (BitVec.ofInt 64)))
+        = (PayloadTie.rows ds md ns 0 nm).map (BitVec.ofInt 64) := by
+  refine ⟨?_, canonAux_canonical _ 0, ?_⟩
+  · rw [go_encoder_loop_is_model ds md ns nm hr hsz, rleEnc, encoder_emits_canon]
+  · simpa using canonAux_expand ((PayloadTie.rows ds md ns 0 nm).map (BitVec.ofInt 64)) 0
+
+/-- **the model's payload is the payload with the Go loop in it**, whenever the collector's delta table holds the
+per-metric deltas of the samples (`TableHolds`: cell (i, j) of `c.deltas` = j-th delta of metric i) -/
+theorem go_payload_is_model_payload (ref : BDoc) (first : Row) (rws : List Row) (ds : List Int) (md : Int)
+    (h : PayloadTie.TableHolds ds md first rws) (hr : ∀ x ∈ ds, -2 ^ 63 ≤ x ∧ x < 2 ^ 63)
+    (hsz : first.length * rws.length < 2 ^ 63) :
+    payloadOf ref first rws
+      = serDoc ref ++ le32 first.length ++ le32 rws.length
+          ++ PayloadTie.emitBytes (Gen.Better.getPayload_region ds md (rws.length : Int) (first.length : Int) []) :=
+  PayloadTie.payloadOf_is_go_loop ref first rws ds md h hr hsz
+
+/-- non-vacuity and a run of the generated definition: metrics (5, 5, 5) and (1, 1, 4) after the reference sample:
+deltas 0 0 | 0 3 with row length 4 — one run of three zeros across the metric boundary, then the literal -/
+example : Gen.Better.getPayload_region [0, 0, 9, 9, 0, 3, 9, 9] 4 2 2 [] = [0, 2, 3] := by decide
+example : PayloadTie.TableHolds [0, 0, 9, 9, 0, 3, 9, 9] 4 [5#64, 1#64] [[5#64, 1#64], [5#64, 4#64]] := by
+  intro i hi j hj
+  have hi' : i < 2 := hi
+  have hj' : j < 2 := hj
+  match i, j, hi', hj' with
+  | 0, 0, _, _ => decide
+  | 0, 1, _, _ => decide
+  | 1, 0, _, _ => decide
+  | 1, 1, _, _ => decide
 
 end Ftdc.Props.C03
